@@ -24,10 +24,11 @@ type c15Target struct {
 }
 
 type c15Loop struct {
-	rs  *ast.RangeStmt
-	t   *c15Target
-	key types.Object
-	val types.Object
+	rs      *ast.RangeStmt // a range statement, or a canonical counting loop presented as one
+	t       *c15Target
+	key     types.Object
+	val     types.Object          // the variable that names the element (value variable or `p := xs[i]`)
+	aliases map[types.Object]bool // every local that holds a copy of the element
 }
 
 func c15IsPointSlice(t types.Type) bool {
@@ -135,25 +136,18 @@ func c15Noise(c *kit.Ctx, a *c15Anchors, r2 *kit.Rule, writers map[string]*point
 func c15NoiseFunc(c *kit.Ctx, r2 *kit.Rule, writers map[string]*pointWriter, f *kit.Func, targets []*c15Target, tomb string) {
 	info := f.Info()
 	var loops []*c15Loop
-	ast.Inspect(f.Body, func(n ast.Node) bool {
-		rs, ok := n.(*ast.RangeStmt)
-		if !ok {
-			return true
-		}
+	for _, rs := range f.SliceLoops(f.Body) {
 		for _, t := range targets {
 			if t.is(rs.X) {
-				l := &c15Loop{rs: rs, t: t}
+				l := &c15Loop{rs: rs, t: t, aliases: kit.ElemAliases(info, rs)}
 				if rs.Key != nil {
 					l.key = kit.ObjOf(info, rs.Key)
 				}
-				if rs.Value != nil {
-					l.val = kit.ObjOf(info, rs.Value)
-				}
+				l.val = kit.LoopElemVar(info, rs)
 				loops = append(loops, l)
 			}
 		}
-		return true
-	})
+	}
 	// inSlice: e is <slice>[<key of l>]; isElem: that or the value variable
 	inSlice := func(l *c15Loop, e ast.Expr) bool {
 		ix, ok := ast.Unparen(e).(*ast.IndexExpr)
@@ -162,7 +156,7 @@ func c15NoiseFunc(c *kit.Ctx, r2 *kit.Rule, writers map[string]*pointWriter, f *
 	isElem := func(l *c15Loop) func(ast.Expr) bool {
 		return func(e ast.Expr) bool {
 			e = ast.Unparen(e)
-			if l.val != nil && kit.ObjOf(info, e) == l.val {
+			if o := kit.ObjOf(info, e); o != nil && l.aliases[o] {
 				return true
 			}
 			return inSlice(l, e)
@@ -198,7 +192,7 @@ func c15NoiseFunc(c *kit.Ctx, r2 *kit.Rule, writers map[string]*pointWriter, f *
 			return true
 		}
 		l := loopOf(as)
-		if l != nil && l.val != nil && kit.ObjOf(info, sel.X) == l.val {
+		if o := kit.ObjOf(info, sel.X); l != nil && o != nil && l.aliases[o] {
 			return true // assignment to the loop's copy: no effect on the export
 		}
 		if l == nil || !inSlice(l, sel.X) {
@@ -277,11 +271,11 @@ func c15NoiseFunc(c *kit.Ctx, r2 *kit.Rule, writers map[string]*pointWriter, f *
 	// ---- (b) compaction loops: an element is dropped only when tombstone && value == 0
 	for _, l := range loops {
 		l := l
-		if l.val == nil {
+		if len(l.aliases) == 0 {
 			continue
 		}
 		elem := isElem(l)
-		isVal := func(e ast.Expr) bool { return kit.ObjOf(info, e) == l.val }
+		isVal := func(e ast.Expr) bool { o := kit.ObjOf(info, e); return o != nil && l.aliases[o] }
 		// keep sites: <slice>[j] = <value var>   or   X = append(X, <value var>)
 		var keeps []ast.Node
 		ast.Inspect(l.rs.Body, func(n ast.Node) bool {
